@@ -13,6 +13,7 @@ from ..ops import area_scaled, column_sums, hermitian_defects, mat_diff, row_sum
 from ..src import loc
 
 OPS = "tdgl.finite_volume.operators"
+LEVEL = "proof"
 TECH = "COO block algebra over abstractly interpreted operator builders (ast); exact rational normal forms"
 
 
